@@ -462,9 +462,7 @@ def job_naming(chain):
             return True, 'derived world got the same name as its parent (name0=%r)' % md.get('name0')
         results.append(discharge(Obligation('%s: every derived world has a name different from its parent' % tag, z3.And(*conds), A + p.pc, with_axioms=False, with_dens=False, replay=rp2,
                                             key='naming:distinct:%d' % chain, timeout_ms=solve.qtimeout(60, 300))))
-    so = z3.Solver()
-    so.add(A)
-    results.append({'name': 'naming chain %d [reachability twin]' % chain, 'key': 'twin', 'twin': True, 'verdict': str(so.check()), 'solver_s': 0.0, 'info': {'paths': len(paths)}})
+    results.append({'name': 'naming chain %d [reachability twin]' % chain, 'key': 'twin', 'twin': True, 'verdict': solve.sat_check(list(A), 60000), 'solver_s': 0.0, 'info': {'paths': len(paths)}})
     return {'results': results, 'encoded': loader.ENCODED, 'paths': len(paths), 'label': 'naming chain %d' % chain}
 
 
